@@ -14,7 +14,7 @@ pub fn arch_check(ctx: &Ctx, arch: Arch, stream: u64, rule: &str) -> i32 {
         "the emulator's reading of the printed instruction subset (DESIGN.md 3.4, Appendix A)".into(),
         "positional AxCut machine (DESIGN.md 3.3)".into(),
     ];
-    let n = ctx.tier.pick(2000, 40000);
+    let n = ctx.tier.pick(2000, 120000);
     let run = |b: &[u8]| {
         let c = decode(ctx, arch, b);
         run_fun_case(ctx, arch, &c.prog, &c.tuples, false).0
@@ -30,12 +30,26 @@ pub fn arch_check(ctx: &Ctx, arch: Arch, stream: u64, rule: &str) -> i32 {
     // second domain: directly generated linear programs (stateful generator)
     if report.violations.is_empty() {
         let lcfg = lin_cfg_for(ctx, arch);
-        let n2 = ctx.tier.pick(2500, 50000);
+        let n2 = ctx.tier.pick(2500, 200000);
         let run2 = |b: &[u8]| run_lin_case(ctx, arch, &decode_lin(&lcfg, b), false).0;
         let out2 = drive(&mut ev, ctx.seed, stream + 100, n2, 60, 2500, 400, &run2);
         if let Some((bytes, f)) = out2.failure {
             eprintln!("{}", f.summary);
             report.violations.push(write_replay(ctx, "linear", &bytes, &f));
+        }
+    }
+    // cross-check of the emulator itself (x86-64 only): a sample of the directly generated linear
+    // programs is also assembled, linked with the repository's driver and run natively; the native
+    // output/status must agree with the positional AxCut machine as well
+    if report.violations.is_empty() && arch == Arch::X86 {
+        let tc = crate::native::Toolchain::new(ctx.scratch.clone());
+        let lcfg = lin_cfg_for(ctx, arch);
+        let n3 = ctx.tier.pick(250, 5000);
+        let run3 = |b: &[u8]| native_cross_check(ctx, &tc, &decode_lin(&lcfg, b));
+        let out3 = drive(&mut ev, ctx.seed, stream + 200, n3, 60, 2500, 100, &run3);
+        if let Some((bytes, f)) = out3.failure {
+            eprintln!("{}", f.summary);
+            report.violations.push(write_replay(ctx, "native-linear", &bytes, &f));
         }
     }
     let infra: u64 = ev.discards.iter().filter(|(k, _)| k.starts_with("infra")).map(|(_, v)| *v).sum();
@@ -45,11 +59,64 @@ pub fn arch_check(ctx: &Ctx, arch: Arch, stream: u64, rule: &str) -> i32 {
     finish(ctx, &ev, &report, start)
 }
 
+static NTAG: std::sync::atomic::AtomicU64 = std::sync::atomic::AtomicU64::new(0);
+
+pub fn native_cross_check(ctx: &Ctx, tc: &crate::native::Toolchain, c: &LinCase) -> CaseResult {
+    use crate::ref_fun::Outcome;
+    let asm = match codegen_linear(&c.prog, Arch::X86) {
+        Ok(a) => a,
+        Err(r) => return r,
+    };
+    let nargs = c.prog.defs[0].context.bindings.len();
+    let tag = format!("n{}", NTAG.fetch_add(1, std::sync::atomic::Ordering::Relaxed));
+    let exe = match tc.build_exe(&asm, nargs, &tag) {
+        Ok(e) => e,
+        Err(crate::native::NativeError::Assemble(m)) => {
+            return CaseResult::Fail(Failure { kind: "assembler".into(), summary: format!("assembler rejected the emitted file: {m}"), details: serde_json::json!({"linearized": printer::Print::print_to_string(&c.prog, None)}) });
+        }
+        Err(crate::native::NativeError::Infra(m)) => return CaseResult::Discard(format!("infra: {m}")),
+    };
+    let mut ok = 0;
+    let mut res = None;
+    for t in &c.tuples {
+        let (o, _, _) = crate::mach_axcut::run_positional(&c.prog, t, ctx.tier.pick(150_000, 400_000));
+        let Outcome::Done { out, result } = o else { continue };
+        let args: Vec<String> = t.iter().map(|a| a.to_string()).collect();
+        let Ok(r) = crate::native::run_with_timeout(&exe, &args, std::time::Duration::from_secs(10)) else { continue };
+        if r.timed_out {
+            res = Some(CaseResult::Discard("infra: watchdog (inconclusive)".into()));
+            break;
+        }
+        if r.stdout != out || r.code != Some((result & 0xff) as i32) {
+            res = Some(CaseResult::Fail(Failure {
+                kind: "native".into(),
+                summary: format!("native execution of the x86-64 code disagrees with the AxCut machine (args {t:?}): status {:?}{} expected {}", r.code, r.signal.map(|s| format!(" signal {s}")).unwrap_or_default(), result & 0xff),
+                details: serde_json::json!({"linearized": printer::Print::print_to_string(&c.prog, None), "args": t,
+                    "expected_stdout": String::from_utf8_lossy(&out), "observed_stdout": String::from_utf8_lossy(&r.stdout)}),
+            }));
+            break;
+        }
+        ok += 1;
+    }
+    let _ = std::fs::remove_file(&exe);
+    if let Some(r) = res {
+        return r;
+    }
+    if ok == 0 {
+        return CaseResult::Discard("undefined or over budget".into());
+    }
+    CaseResult::Pass { nontrivial: true, hash: hash_str(&asm), classes: vec!["native cross-check of the emulator".into()], sample: None }
+}
+
 pub fn check(ctx: &Ctx) -> i32 {
     arch_check(ctx, Arch::X86, 6, "linearized AxCut programs from the pipeline (generated Fun programs, environments beyond the register file, objects with up to 8 fields) x 2 argument tuples; oracle: sequence of print calls (newline flag, value) and returned value of the emulated x86-64 text (parsed from the printed assembly, poison tracking for undefined values, code addresses with 5-byte table entries) vs the positional AxCut machine. Non-trivial: the run has > 6 live variables (spills), a multi-block object or a shared object; distinct by hash of (source, arguments).")
 }
 
 pub fn replay(ctx: &Ctx, arch: Arch, sub: &str, bytes: &[u8], case: &serde_json::Value) -> CaseResult {
+    if sub.starts_with("native-linear") {
+        let tc = crate::native::Toolchain::new(ctx.scratch.clone());
+        return native_cross_check(ctx, &tc, &decode_lin(&lin_cfg_for(ctx, arch), bytes));
+    }
     if sub.starts_with("linear") {
         return run_lin_case(ctx, arch, &decode_lin(&lin_cfg_for(ctx, arch), bytes), false).0;
     }
